@@ -317,3 +317,267 @@ Qed.
 
 Theorem spt_checkf_correct alts p T : spt_checkf alts p T = true <-> spt_spec alts p T.
 Proof. rewrite spt_checkf_eq. apply spt_check_correct. Qed.
+
+(* ------------------------------------------------------------------------------------------------ *)
+(** * The specification only depends on the undirected graph *)
+
+Lemma edges_wf_adj alts T :
+  Forall (edge_wf alts) T <-> (forall a b, adj T a b -> In a alts /\ In b alts /\ a <> b).
+Proof.
+  rewrite Forall_forall. unfold edge_wf. split.
+  - intros H a b [Hab|Hab]; apply H in Hab; cbn in Hab; intuition congruence.
+  - intros H [a b] He. cbn. apply H. left; exact He.
+Qed.
+
+Lemma same_graph_sym T T' : same_graph T T' -> same_graph T' T.
+Proof. intros [H1 H2]. split; [symmetry; exact H1|]. intros a b. symmetry. apply H2. Qed.
+
+Lemma spanning_tree_same_graph alts T T' :
+  same_graph T T' -> spanning_tree alts T -> spanning_tree alts T'.
+Proof.
+  intros [Hl Ha] (H1 & H2 & H3). split; [rewrite <- Hl; exact H1|]. split.
+  - apply edges_wf_adj. intros a b Hab. apply Ha in Hab. revert a b Hab. apply edges_wf_adj. exact H2.
+  - eapply connected_adj_ext; [exact Ha|exact H3].
+Qed.
+
+Lemma spt_spec_same_graph alts p T T' :
+  same_graph T T' -> spt_spec alts p T -> spt_spec alts p T'.
+Proof.
+  intros Hs [H1 H2]. split; [eapply spanning_tree_same_graph; eauto|].
+  intros v Hv k. eapply connected_adj_ext; [apply Hs|apply H2; exact Hv].
+Qed.
+
+Lemma same_graph_perm T T' : Permutation T T' -> same_graph T T'.
+Proof.
+  intros Hp. split; [apply Permutation_length; exact Hp|].
+  assert (Hi : forall e, In e T <-> In e T').
+  { intros e. split; apply Permutation_in; [exact Hp|apply Permutation_sym; exact Hp]. }
+  intros a b. unfold adj. rewrite !Hi. tauto.
+Qed.
+
+Definition swap (e : edge) : edge := (snd e, fst e).
+(* each edge kept or reversed *)
+Definition reoriented (T T' : list edge) : Prop := Forall2 (fun e e' => e' = e \/ e' = swap e) T T'.
+
+Lemma same_graph_reoriented T T' : reoriented T T' -> same_graph T T'.
+Proof.
+  intros H. split; [induction H; cbn; congruence|].
+  induction H as [|e e' T T' He _ IH]; intros a b; [unfold adj; cbn; tauto|].
+  specialize (IH a b). unfold adj in *. cbn [In].
+  destruct e as [x y]. unfold swap in He. cbn in He.
+  destruct He as [->| ->]; split; intros [[H|H]|[H|H]];
+    try (inversion H; subst; clear H); tauto.
+Qed.
+
+Lemma reoriented_swap T : reoriented T (map swap T).
+Proof. induction T; constructor; auto. Qed.
+
+(* invariance of the checkers: order of the edge list and orientation of each edge are irrelevant *)
+Theorem tree_check_same_graph alts T T' : same_graph T T' -> tree_check alts T = tree_check alts T'.
+Proof.
+  intros H. apply bool_eq_iff. rewrite !tree_check_correct.
+  split; apply spanning_tree_same_graph; [exact H|apply same_graph_sym; exact H].
+Qed.
+
+Theorem spt_check_same_graph alts p T T' : same_graph T T' -> spt_check alts p T = spt_check alts p T'.
+Proof.
+  intros H. apply bool_eq_iff. rewrite !spt_check_correct.
+  split; apply spt_spec_same_graph; [exact H|apply same_graph_sym; exact H].
+Qed.
+
+Theorem tree_check_perm alts T T' : Permutation T T' -> tree_check alts T = tree_check alts T'.
+Proof. intros H. apply tree_check_same_graph, same_graph_perm, H. Qed.
+Theorem tree_check_reoriented alts T T' : reoriented T T' -> tree_check alts T = tree_check alts T'.
+Proof. intros H. apply tree_check_same_graph, same_graph_reoriented, H. Qed.
+Theorem spt_check_perm alts p T T' : Permutation T T' -> spt_check alts p T = spt_check alts p T'.
+Proof. intros H. apply spt_check_same_graph, same_graph_perm, H. Qed.
+Theorem spt_check_reoriented alts p T T' : reoriented T T' -> spt_check alts p T = spt_check alts p T'.
+Proof. intros H. apply spt_check_same_graph, same_graph_reoriented, H. Qed.
+
+(* ------------------------------------------------------------------------------------------------ *)
+(** * The enumeration of candidate trees *)
+
+Lemma prod_choices_map_iff {A B : Type} (f : B -> list A) (xs : list B) (l : list A) :
+  In l (prod_choices (map f xs)) <-> Forall2 (fun e x => In e (f x)) l xs.
+Proof.
+  revert l. induction xs as [|x xs IH]; intros l; cbn.
+  - split.
+    + intros [<-|[]]. constructor.
+    + intros H. inversion H. left; reflexivity.
+  - rewrite in_flat_map. split.
+    + intros (e & He & Hl). apply in_map_iff in Hl. destruct Hl as (l' & <- & Hl').
+      constructor; [exact He|apply IH; exact Hl'].
+    + intros H. inversion H as [|e x' l' xs' He Hl']; subst.
+      exists e. split; [exact He|]. apply in_map. apply IH. exact Hl'.
+Qed.
+
+Lemma parent_edges_iff alts x e :
+  In e (parent_edges alts x) <-> snd e = x /\ In (fst e) alts /\ fst e <> x.
+Proof.
+  unfold parent_edges. rewrite in_map_iff. split.
+  - intros (q & <- & Hq). apply filter_In in Hq. destruct Hq as [Hq Hn].
+    apply negb_true_iff, N.eqb_neq in Hn. cbn. auto.
+  - intros (H1 & H2 & H3). exists (fst e). split; [destruct e; cbn in *; subst; reflexivity|].
+    apply filter_In. split; [exact H2|]. apply negb_true_iff, N.eqb_neq. exact H3.
+Qed.
+
+Lemma cand_aux alts rest T :
+  Forall2 (fun e x => In e (parent_edges alts x)) T rest <->
+  map snd T = rest /\ forall e, In e T -> In (fst e) alts /\ fst e <> snd e.
+Proof.
+  split.
+  - intros H. induction H as [|e x T xs He _ IH]; [split; [reflexivity|intros e []]|].
+    apply parent_edges_iff in He. destruct He as (H1 & H2 & H3). destruct IH as [IH1 IH2].
+    split; [cbn; congruence|]. intros e' [<-|He']; [split; [exact H2|congruence]|auto].
+  - intros [H1 H2]. subst rest.
+    induction T as [|e T IH]; constructor.
+    + apply parent_edges_iff. destruct (H2 e (or_introl eq_refl)). auto.
+    + apply IH. intros e' He'. apply H2. right; exact He'.
+Qed.
+
+Lemma cand_trees_iff r rest T :
+  In T (cand_trees (r :: rest)) <->
+  map snd T = rest /\ forall e, In e T -> In (fst e) (r :: rest) /\ fst e <> snd e.
+Proof. unfold cand_trees. rewrite prod_choices_map_iff. apply cand_aux. Qed.
+
+(* every candidate accepted by the checker is a witness (trivially, by spt_check_correct);
+   conversely every spanning tree has the same graph as some candidate: *)
+
+(* a record of how a connected set was grown from R: each edge (p, x) attaches a new vertex x to an
+   earlier vertex p *)
+Inductive chain (T : list edge) : list N -> list edge -> Prop :=
+| chain_nil R : chain T R []
+| chain_cons R p x L : In p R -> ~ In x R -> adj T p x -> chain T (x :: R) L -> chain T R ((p, x) :: L).
+
+Lemma grow_chain T fuel : forall R rest,
+  NoDup (R ++ rest) -> grow fuel T R rest = [] ->
+  exists L, Permutation (map snd L) rest /\ chain T R L.
+Proof.
+  induction fuel as [|f IH]; intros R rest Hnd Hg; cbn in Hg.
+  - subst rest. exists []. split; constructor.
+  - destruct (pick (near T R) rest) as [[x rest']|] eqn:Ep.
+    + apply pick_some in Ep. destruct Ep as [Hn Hp].
+      assert (Hnd' : NoDup (R ++ x :: rest')).
+      { eapply Permutation_NoDup; [apply Permutation_app_head; exact Hp|exact Hnd]. }
+      assert (HxR : ~ In x R).
+      { intros HxR. apply NoDup_remove_2 in Hnd'. apply Hnd'. apply in_or_app. left; exact HxR. }
+      apply near_iff in Hn. destruct Hn as [Hn|(q & Hq & Ha)]; [contradiction|].
+      destruct (IH (x :: R) rest') as (L & HL & Hch).
+      * cbn. eapply Permutation_NoDup; [apply Permutation_sym; apply Permutation_middle|exact Hnd'].
+      * exact Hg.
+      * exists ((q, x) :: L). split.
+        -- cbn. eapply Permutation_trans; [apply perm_skip; exact HL|apply Permutation_sym; exact Hp].
+        -- constructor; assumption.
+    + subst rest. exists []. split; constructor.
+Qed.
+
+Lemma chain_edges T R L : chain T R L ->
+  forall e, In e L -> adj T (fst e) (snd e) /\ In (fst e) (R ++ map snd L) /\ fst e <> snd e.
+Proof.
+  induction 1 as [R|R q x L Hq Hx Ha _ IH]; intros e He; [destruct He|].
+  destruct He as [<-|He]; cbn [fst snd map].
+  - split; [exact Ha|]. split; [apply in_or_app; left; exact Hq|]. intros ->. contradiction.
+  - destruct (IH e He) as (H1 & H2 & H3). split; [exact H1|]. split; [|exact H3].
+    apply in_app_or in H2. apply in_or_app. destruct H2 as [[<-|H2]|H2].
+    + right; left; reflexivity.
+    + left; exact H2.
+    + right; right; exact H2.
+Qed.
+
+Lemma chain_snd_fresh T R L : chain T R L -> forall e, In e L -> ~ In (snd e) R.
+Proof.
+  induction 1 as [R|R q x L Hq Hx Ha _ IH]; intros e He; [destruct He|].
+  destruct He as [<-|He]; cbn [snd]; [exact Hx|].
+  intros Hin. apply (IH e He). right; exact Hin.
+Qed.
+
+Lemma edge_eq_dec (e e' : edge) : {e = e'} + {e <> e'}.
+Proof. decide equality; apply N.eq_dec. Qed.
+
+(* the element of T that realises the adjacency of a and b *)
+Definition lit (T : list edge) (e : edge) : edge :=
+  if in_dec edge_eq_dec e T then e else swap e.
+
+Lemma lit_cases T e : lit T e = e \/ lit T e = swap e.
+Proof. unfold lit. destruct (in_dec edge_eq_dec e T); auto. Qed.
+
+Lemma lit_in T e : adj T (fst e) (snd e) -> In (lit T e) T.
+Proof.
+  unfold lit. destruct (in_dec edge_eq_dec e T) as [H|H]; [auto|].
+  destruct e as [a b]. cbn. intros [H'|H']; [contradiction|exact H'].
+Qed.
+
+Lemma chain_lit_nodup T R L : chain T R L -> NoDup (map (lit T) L).
+Proof.
+  induction 1 as [R|R q x L Hq Hx Ha Hch IH]; cbn [map]; constructor; [|exact IH].
+  intros Hin. apply in_map_iff in Hin. destruct Hin as ([q' x'] & Heq & He').
+  pose proof (chain_snd_fresh _ _ _ Hch _ He') as Hfresh. cbn [snd] in Hfresh.
+  destruct (lit_cases T (q', x')) as [E1|E1], (lit_cases T (q, x)) as [E2|E2];
+    rewrite E1, E2 in Heq; unfold swap in Heq; cbn in Heq; inversion Heq; subst;
+    apply Hfresh; (left; reflexivity) || (right; assumption).
+Qed.
+
+Theorem cand_trees_complete alts T :
+  NoDup alts -> spanning_tree alts T -> exists T', In T' (cand_trees alts) /\ same_graph T T'.
+Proof.
+  intros Hnd (Hlen & Hwf & Hconn).
+  destruct alts as [|r rest]; [discriminate|]. cbn in Hlen. injection Hlen as Hlen.
+  (* the growth order *)
+  assert (Hg : grow (length rest) T [r] rest = []).
+  { apply grow_complete; [lia|discriminate|exact Hconn]. }
+  destruct (grow_chain T _ [r] rest Hnd Hg) as (L & HLp & Hch).
+  pose proof (chain_edges _ _ _ Hch) as Hed.
+  assert (HlenL : length L = length T).
+  { rewrite <- Hlen, <- (Permutation_length HLp), map_length. reflexivity. }
+  (* L and T have the same graph *)
+  assert (Hincl : incl T (map (lit T) L)).
+  { apply NoDup_length_incl.
+    - eapply chain_lit_nodup; exact Hch.
+    - rewrite map_length. apply Nat.eq_le_incl. symmetry. exact HlenL.
+    - intros e He. apply in_map_iff in He. destruct He as (e0 & <- & He0).
+      apply lit_in. apply Hed. exact He0. }
+  assert (HTL : forall a b, In (a, b) T -> adj L a b).
+  { intros a b Hab. apply Hincl in Hab. apply in_map_iff in Hab. destruct Hab as ([q x] & Heq & He).
+    destruct (lit_cases T (q, x)) as [E|E]; rewrite E in Heq; unfold swap in Heq; cbn in Heq;
+      inversion Heq; subst; [left|right]; exact He. }
+  assert (Hsame : forall a b, adj T a b <-> adj L a b).
+  { intros a b. split.
+    - intros [H|H]; [apply HTL; exact H|apply adj_sym; apply HTL; exact H].
+    - intros [H|H]; [|apply adj_sym]; apply (Hed _ H). }
+  (* reorder L along rest *)
+  destruct (Permutation_map_inv snd L (Permutation_sym HLp)) as (L' & Hrest & HLL').
+  exists L'. split.
+  - apply cand_trees_iff. split; [symmetry; exact Hrest|].
+    intros e He. assert (HeL : In e L) by (eapply Permutation_in; [apply Permutation_sym; exact HLL'|exact He]).
+    destruct (Hed e HeL) as (_ & H2 & H3). split; [|exact H3].
+    cbn in H2. destruct H2 as [<-|H2]; [left; reflexivity|right].
+    eapply Permutation_in; [exact HLp|exact H2].
+  - destruct (same_graph_perm _ _ HLL') as [Hl2 Ha2].
+    split; [etransitivity; [symmetry; exact HlenL|exact Hl2]|].
+    intros a b. rewrite Hsame. apply Ha2.
+Qed.
+
+(* ------------------------------------------------------------------------------------------------ *)
+(** * The reference decider *)
+
+Theorem spt_decide_sound alts p : spt_decide alts p = true -> SPT alts p.
+Proof.
+  unfold spt_decide. rewrite existsb_exists. intros (T & _ & HT).
+  exists T. apply spt_checkf_correct. exact HT.
+Qed.
+
+Theorem spt_decide_complete alts p : NoDup alts -> SPT alts p -> spt_decide alts p = true.
+Proof.
+  intros Hnd (T & HT). destruct (cand_trees_complete alts T Hnd (proj1 HT)) as (T' & Hin & Hs).
+  unfold spt_decide. apply existsb_exists. exists T'. split; [exact Hin|].
+  apply spt_checkf_correct. eapply spt_spec_same_graph; eauto.
+Qed.
+
+Theorem spt_decide_correct alts p : NoDup alts -> (spt_decide alts p = true <-> SPT alts p).
+Proof. intros Hnd. split; [apply spt_decide_sound|apply spt_decide_complete; exact Hnd]. Qed.
+
+Lemma spt_decide_slow_eq alts p : spt_decide_slow alts p = spt_decide alts p.
+Proof.
+  unfold spt_decide_slow, spt_decide. induction (cand_trees alts) as [|T l IH]; cbn; [reflexivity|].
+  rewrite spt_checkf_eq, IH. reflexivity.
+Qed.
